@@ -27,6 +27,15 @@ CHECKS = {
  "C11": dict(cat="exploration", ref="2 (C11)", technique="invariant checking over generated histories (directory listing == needed files after quiescence; no read fails on a missing file)",
    text="Histories with iterators/snapshots pinning versions across compactions; reads must never fail on a missing file; after releasing everything, one flush (the reclamation opportunity) and quiescence the directory must hold exactly CURRENT, the current manifest, the active WAL and the current version's tables.",
    note="The lazy window before the next flush/compaction/open is by design (LevelDB heritage) and not flagged. Crash-image orphans are checked by the C02 engine."),
+ "C02": dict(cat="fault_enumeration", ref="3 (C02)", technique="crash-point enumeration over journalled generated workloads (every journal prefix recovered and compared with the acknowledged/in-flight states)",
+   text="Each proptest-generated write workload runs on a journalling MemFs; every prefix of its totally ordered mutating filesystem calls is rebuilt as a crash image, recovered with varied reuse_log_files/config, compared with the acknowledged state (+ optionally the whole in-flight batch), then written to, closed, reopened and compared again; a sample of recoveries is itself crashed (depth 2). Enumeration of all crash points of a workload is complete (quick: for journals <= 400 entries); the workloads are a generated sample.",
+   note="Crash model: every completed filesystem call is durable, nothing else is (process crash, no page-cache loss); torn calls are C16."),
+ "C12": dict(cat="exploration", ref="5 (C12)", technique="round-trip property testing of LogWriter/LogReader with an enumerated block-boundary family",
+   text="Round-trip through the real LogWriter/LogReader over generated record-length lists, writer re-open points, writer death between fragments and final truncation at any byte, with an independent model of the block layout; the block-boundary arithmetic (offsets within 20 bytes of a boundary x lengths within 20 bytes of the remaining room) is enumerated completely in the thorough tier.",
+   note="Reached through wrappers in src/verif.rs; checksum corruption is C15's subject, not C12's."),
+ "C16": dict(cat="fault_enumeration", ref="3 (C16)", technique="torn-write enumeration over journalled generated workloads (append cut at 1, n/2, n-1 bytes; recover, write, reopen)",
+   text="Every append to a WAL, manifest or CURRENT temp file of a generated workload is cut to 1, n/2, n-1 bytes (thorough: every length for n<=64 plus the header boundary); the image must recover to acknowledged(+in-flight) state with reuse_log_files on and off, accept 1-5 further writes (incl. a 40 kB one) and still contain them after a clean reopen with either setting.",
+   note="Crash model as C02 plus one partially applied append."),
 }
 
 def main():
